@@ -123,18 +123,23 @@ def validate_all(ctx, tspec, trace_path, signature_fn, rerun_fn, max_rejects=12,
             # re-execute once (whole driver, same inputs) and validate that single trace again
             confirmed = True
             if rerun_fn is not None:
-                if reran is None:
-                    reran = rerun_fn()
-                again = dict(split_traces(reran)).get(t_id) if reran else None
-                if again is None:
-                    confirmed = False
-                else:
+                # tspec["rerun_attempts"] (default 1): for code whose command order is not deterministic (Go map
+                # iteration) the re-execution is repeated; a verdict still needs a re-execution that is rejected again
+                confirmed = False
+                for attempt in range(max(1, int(tspec.get("rerun_attempts", 1)))):
+                    if reran is None or attempt > 0:
+                        reran = rerun_fn()
+                    again = dict(split_traces(reran)).get(t_id) if reran else None
+                    if again is None:
+                        continue
                     one = os.path.join(ctx.work, "trace-one.ndjson")
                     write_traces(one, [(t_id, again)])
                     tr2 = core.validate_trace(tspec["specdir"], tspec["module"], tspec["cfg"], one,
                                               deque=tspec.get("deque", False), timeout=tspec.get("timeout", 300),
                                               extra_files=tspec.get("extra_files"), workers=tspec.get("workers", 1))
-                    confirmed = not tr2.accepted
+                    if not tr2.accepted:
+                        confirmed = True
+                        break
             if not confirmed:
                 raise HarnessError("rejection did not reproduce on re-execution (trace %s): %s" % (t_id, what))
             sig = signature_fn(t_id, [json.loads(x) for x in lines], off, tr.reason) if signature_fn else "trace"
